@@ -8,3 +8,4 @@ import OG.C14.AlignProps
 import OG.C14.SharedProps
 import OG.C14.TierProps
 import OG.C14.SchemaProps
+import OG.C14.CmdProps
